@@ -18,6 +18,8 @@ const nFeat06 = 7
 
 var featNames06 = []string{"mountType", "hostPath", "digitName", "annotations", "dottedClass", "intelRdt", "additionalGids"}
 
+var c06Variant int
+
 func plainEdits() specs.ContainerEdits { return specs.ContainerEdits{Env: []string{"A=b"}} }
 
 // applyFeature places feature f at location loc (-1 = spec level, k = device k)
@@ -28,11 +30,13 @@ func applyFeature(s *specs.Spec, f, loc int) {
 	} else {
 		e = &s.Devices[loc].ContainerEdits
 	}
+	c06Variant++ // unusual but legal spellings of each feature take turns with the usual ones
+	v := c06Variant % 3
 	switch f {
 	case 0:
-		e.Mounts = append(e.Mounts, &specs.Mount{HostPath: "/h", ContainerPath: "/c", Type: "bind"})
+		e.Mounts = append(e.Mounts, &specs.Mount{HostPath: "/h", ContainerPath: "/c", Type: []string{"bind", "x", " "}[v]})
 	case 1:
-		e.DeviceNodes = append(e.DeviceNodes, &specs.DeviceNode{Path: "/dev/x", HostPath: "/dev/y"})
+		e.DeviceNodes = append(e.DeviceNodes, &specs.DeviceNode{Path: "/dev/x", HostPath: []string{"/dev/y", "/dev/x", " "}[v]})
 	case 2:
 		if loc >= 0 {
 			s.Devices[loc].Name = "0" + s.Devices[loc].Name
@@ -48,9 +52,9 @@ func applyFeature(s *specs.Spec, f, loc int) {
 	case 4:
 		s.Kind = "vendor.com/cl.ass"
 	case 5:
-		e.IntelRdt = &specs.IntelRdt{ClosID: "c"}
+		e.IntelRdt = []*specs.IntelRdt{{ClosID: "c"}, {}, {EnableCMT: true}}[v]
 	case 6:
-		e.AdditionalGIDs = append(e.AdditionalGIDs, 5)
+		e.AdditionalGIDs = append(e.AdditionalGIDs, [][]uint32{{5}, {0}, {0, 0}}[v]...)
 	}
 }
 
